@@ -89,6 +89,7 @@ def random_cfg(r, page_sizes=None, small=False):
         "big_values": r.random() < 0.6,
         "wide_table": r.choice([0, 0, 0, 150, 300, 700]),
         "index_boundary": r.random() < 0.25,
+        "table_boundary": r.random() < 0.5,
         "fragmenter": r.choice([None, None, (r.randint(17, 23), 3), (20, 3), (r.randint(25, 60), r.choice([1, 2, 3]))]),
     }
 
@@ -150,6 +151,19 @@ def build(path, cfg, r):
         con.execute("COMMIT")
         for i in range(1, min(nupd, per_leaf) + 1):
             con.execute("UPDATE frag SET b = substr(b, 1, ?) WHERE a = ?", (width - step, i))
+    if cfg.get("table_boundary"):
+        # rowid-table rows whose payload sizes sweep a window around (u-35) + k(u-4): the largest payload kept whole on
+        # the page and the sizes at which the local part is exactly u-35 again (record = 3-4 header bytes + the blob)
+        u = cfg["page_size"]
+        con.execute("CREATE TABLE tb (id INTEGER PRIMARY KEY, b BLOB)")
+        tables["tb"] = (["id", "b"], True)
+        con.execute("BEGIN")
+        for k in ((0, 1, 2) if u <= 8192 else (0, 1)):
+            for d in range(-10, 5):
+                n = (u - 35) + k * (u - 4) + d
+                if n > 0:
+                    con.execute("INSERT INTO tb (b) VALUES (?)", (bytes((d + 11 + j) & 0xFF for j in range(n)),))
+        con.execute("COMMIT")
     if cfg.get("index_boundary"):
         # index keys whose payload sizes sweep a window around x + k(u-4) (the index overflow thresholds), enough
         # of them for the index to grow interior pages that carry such keys as well
@@ -184,10 +198,14 @@ def build(path, cfg, r):
         tables["log0"] = (["x"], False)
         con.execute("CREATE TRIGGER tr0 AFTER DELETE ON t0 BEGIN INSERT INTO log0 VALUES (1); END")
 
+    # a table that never gets a row: its root page is an empty leaf (content offset = page size; 0 on 64 KiB pages)
+    con.execute("CREATE TABLE zempty (a, b)")
+    tables["zempty"] = (["a", "b"], False)
+
     def insert_rows(n):
         con.execute("BEGIN")
         for name, (names, alias) in tables.items():
-            if name == "log0":
+            if name in ("log0", "zempty", "tb"):
                 continue
             for _ in range(n):
                 vals = [rand_value(r, ps, big=cfg["big_values"] and name != "wide") for _ in names]
